@@ -11,6 +11,25 @@ Local Open Scope N_scope.
 Lemma winner_eqb_eq a b : winner_eqb a b = true -> a = b.
 Proof. destruct a, b; cbn; try discriminate; try reflexivity. intros H. apply N.eqb_eq in H. congruence. Qed.
 
+Lemma winner_eqb_refl a : winner_eqb a a = true.
+Proof. destruct a; cbn; try reflexivity. apply N.eqb_refl. Qed.
+
+Lemma forallb_false_witness {A} (f : A -> bool) l : forallb f l = false -> exists x, In x l /\ f x = false.
+Proof.
+  induction l as [|x l IH]; cbn [forallb]; [discriminate|]. intros H.
+  destruct (f x) eqn:E; cbn [andb] in H.
+  - destruct (IH H) as [y [Hy Hf]]. exists y. split; [right; exact Hy|exact Hf].
+  - exists x. split; [left; reflexivity|exact E].
+Qed.
+
+Lemma upto_inv n b : In b (upto n) -> (N.to_nat b < n)%nat.
+Proof.
+  induction n as [|n IH]; cbn [upto]; intros H; [destruct H|].
+  apply in_app_or in H as [H|[<-|[]]]; [specialize (IH H); lia|lia].
+Qed.
+Lemma all_bytes_inv b : In b all_bytes -> byte_ok b.
+Proof. intros H. apply upto_inv in H. unfold byte_ok. lia. Qed.
+
 Section Prompt.
   Variables (d : dfa) (g : graph) (V : pairing) (R : rankmap) (D : pset).
   Hypothesis Hok : dfa_ok d = true.
@@ -27,6 +46,21 @@ Section Prompt.
       apply andb_prop in Hb as [Hl Hw]. split.
       + intros HL. apply (lv_iff_live d g V R D Hok Hsim Hex) in HL. rewrite HL in Hl. discriminate.
       + apply winner_eqb_eq. exact Hw.
+  Qed.
+
+  (* the converse reading: a state that is NOT determined has a unit successor from which a match can still be
+     reached, or two unit successors that disagree on the winner - the item is not yet fixed by the text read *)
+  Lemma undetermined_witness q : determined d R q = false ->
+    Live d (dstep d q UEoi) \/
+    exists b, byte_ok b /\ (Live d (dstep d q (UB b)) \/ win d (dstep d q (UB b)) <> win d (dstep d q UEoi)).
+  Proof.
+    unfold determined. intros H. apply andb_false_iff in H as [He|Hb].
+    - left. apply (lv_iff_live d g V R D Hok Hsim Hex). apply negb_false_iff. exact He.
+    - right. destruct (forallb_false_witness _ _ Hb) as [b [Hin Hf]]. cbn zeta in Hf.
+      exists b. split; [exact (all_bytes_inv b Hin)|].
+      apply andb_false_iff in Hf as [Hl|Hw].
+      + left. apply (lv_iff_live d g V R D Hok Hsim Hex). apply negb_false_iff. exact Hl.
+      + right. intros E. rewrite E, winner_eqb_refl in Hw. discriminate.
   Qed.
 
   (* in a determined state the recorded match does not depend on how the input continues *)
@@ -84,6 +118,18 @@ Section Prompt.
 
   (* a state that does not carry the partial-mode test acts (or is the untouched root) at the end of
      the buffer: it never answers "need more input" *)
+  (* hence, under the strict certificate, a state in which the partial lexer waits for more input is one whose item
+     is genuinely open: some continuation can still extend the match, or two continuations decide differently *)
+  Theorem waits_only_if_open s q st : prompt_strict_ok d g V R = true ->
+    inV V s q = true -> gfind g s = Some st -> partial_mode_test st = true ->
+    Live d (dstep d q UEoi) \/
+    exists b, byte_ok b /\ (Live d (dstep d q (UB b)) \/ win d (dstep d q (UB b)) <> win d (dstep d q UEoi)).
+  Proof.
+    intros HP HV Hst Ht. apply undetermined_witness.
+    destruct (determined d R q) eqn:Ed; [|reflexivity].
+    rewrite (prompt_strict s q st HP HV Hst Ed) in Ht. discriminate.
+  Qed.
+
   Theorem no_test_acts start hops s st off c : gfind g s = Some st -> partial_mode_test st = false ->
     at_eoi g true start (S hops) s off c = Acted (record st off c) off \/
     at_eoi g true start (S hops) s off c = RetNone false.
